@@ -149,7 +149,7 @@ class CVRPEnv(RL4COEnvBase):
         locs_ordered = torch.cat(
             [
                 td["locs"][..., 0:1, :],  # depot
-                gather_by_index(td["locs"], actions),  # order locations
+                gather_by_index(td["locs"], actions, squeeze=False),  # order locations
             ],
             dim=1,
         )
